@@ -5,18 +5,78 @@ package stakepool
 // Machine-checked contracts for /verif/govc (contract-based deductive verification).
 // This file contains comments only; it is compiled only with -tags verif and adds no code.
 
-//@ spec poolsOK(pools []*DelegatePool) bool = (forall i in 0..len(pools) :: pools[i] != nil && pools[i].Reward <= MAXSUPPLY) && (forall i in 0..len(pools) :: forall j in i+1..len(pools) :: pools[i] != pools[j])
+//@ spec poolsOK(pools []*DelegatePool) bool = (forall i in 0..len(pools) :: pools[i] != nil && pools[i].Reward <= 2 * MAXSUPPLY) && (forall i in 0..len(pools) :: forall j in i+1..len(pools) :: pools[i] != pools[j])
+
+//@ spec poolsMapOK(sp *StakePool) bool = sp.Pools != nil && (forall k string :: k in sp.Pools ==> sp.Pools[k] != nil && sp.Pools[k].Reward <= MAXSUPPLY && sp.Pools[k].Balance <= MAXSUPPLY)
+
+// Helpers that iterate the delegate-pool map in key order (map iteration + sort): trusted.
+//@ func (*StakePool).OrderedPoolIds
+//@   trusted
+//@   ensures fresh(result) && len(result) == len(sp.Pools)
+//@   ensures forall i in 0..len(result) :: result[i] in sp.Pools
+//@   ensures forall i in 0..len(result) :: forall j in i+1..len(result) :: result[i] != result[j]
+//@   modifies nothing
+
+//@ func (*StakePool).GetOrderedPools
+//@   trusted
+//@   ensures fresh(result) && len(result) == len(sp.Pools)
+//@   ensures forall i in 0..len(result) :: exists k string :: k in sp.Pools && sp.Pools[k] == result[i]
+//@   ensures forall k string :: k in sp.Pools ==> exists i in 0..len(result) :: result[i] == sp.Pools[k]
+//@   ensures forall i in 0..len(result) :: forall j in i+1..len(result) :: result[i] != result[j]
+//@   modifies nothing
+
+//@ func (*StakePool).stake
+//@   trusted
+//@   ensures err == nil && len(sp.Pools) == 0 ==> stake == 0
+//@   modifies nothing
+
+//@ func NewStakePoolReward
+//@   trusted
+//@   ensures result != nil && fresh(result) && result.DelegateRewards != nil && fresh(result.DelegateRewards) && len(result.DelegateRewards) == 0 && result.Reward == 0
+//@   modifies nothing
+
+//@ func (StakePoolReward).Emit
+//@   trusted
+//@   modifies nothing
+
+// the deferred self-check of DistributeRewards (reads only; panics on a bookkeeping mismatch)
+//@ func (*StakePool).DistributeRewards$1
+//@   trusted
+//@   modifies nothing
 
 // ---------------------------------------------------------------- reward distribution (C10)
+
+// A killed provider, or a zero reward, changes nothing. Otherwise only rewards move: the
+// provider's own reward and delegate rewards; stakes (balances) are never touched.
+//@ func (*StakePool).DistributeRewards
+//@   prop C10, C23
+//@   requires sp != nil && poolsMapOK(sp) && sp.Reward <= MAXSUPPLY && value <= MAXSUPPLY
+//@   ensures[dead-gets-nothing] old(sp.HasBeenKilled) || value == 0 ==> sp.Reward == old(sp.Reward)
+//@   ensures[dead-delegates-get-nothing] old(sp.HasBeenKilled) || value == 0 ==> (forall k string :: k in sp.Pools ==> sp.Pools[k].Reward == old(sp.Pools[k].Reward))
+//@   ensures sp.HasBeenKilled == old(sp.HasBeenKilled) && sp.Pools == old(sp.Pools)
+//@   ensures forall k string :: ((k in sp.Pools) == old(k in sp.Pools)) && sp.Pools[k] == old(sp.Pools[k])
+//@   ensures[stakes-untouched] forall k string :: k in sp.Pools ==> sp.Pools[k].Balance == old(sp.Pools[k].Balance)
+//@   ensures[rewards-only-grow] err == nil ==> sp.Reward >= old(sp.Reward) && (forall k string :: k in sp.Pools ==> sp.Pools[k].Reward >= old(sp.Pools[k].Reward))
+//@   ensures[no-delegates] err == nil && !old(sp.HasBeenKilled) && len(sp.Pools) == 0 && sp.Settings.MinStake == 0 ==> sp.Reward == old(sp.Reward) + value
+//@   at-call stake assert[charge-le-value] serviceCharge <= value
+//@   at-call equallyDistributeRewards assert valueBalance <= valueLeft && valueLeft <= value
+//@   modifies sp.Reward, any(DelegatePool).Reward
+//@   loop 1 header "for _, id := range orderedPoolIds"
+//@   loop 1 invariant valueBalance <= valueLeft && valueLeft <= value && sp.Pools == old(sp.Pools) && sp.HasBeenKilled == old(sp.HasBeenKilled)
+//@   loop 1 invariant forall k string :: ((k in sp.Pools) == old(k in sp.Pools)) && sp.Pools[k] == old(sp.Pools[k])
+//@   loop 1 invariant forall k string :: k in sp.Pools ==> sp.Pools[k].Balance == old(sp.Pools[k].Balance) && sp.Pools[k].Reward >= old(sp.Pools[k].Reward)
+//@   loop 1 invariant forall k string :: k in sp.Pools ==> sp.Pools[k].Reward <= old(sp.Pools[k].Reward) + valueLeft - valueBalance
+//@   loop 1 invariant sp.Reward >= old(sp.Reward)
 
 // The remainder of a reward is handed out exactly: with n pools every pool gets coins/n and the
 // first coins%n pools (in the given order) one coin more. Summed over the pools this is coins.
 //@ func equallyDistributeRewards
 //@   prop C10
 //@   requires len(pools) > 0 && poolsOK(pools) && coins <= MAXSUPPLY && spUpdate != nil && spUpdate.DelegateRewards != nil
+//@   dead-paths 1 -- DistributeCoin cannot fail for len(pools) > 0
 //@   ensures[exact-per-pool] result == nil ==> forall i in 0..len(pools) :: pools[i].Reward == old(pools[i].Reward) + coins / len(pools) + (i < coins % len(pools) ? 1 : 0)
 //@   ensures forall i in 0..len(pools) :: pools[i].Balance == old(pools[i].Balance) && pools[i].DelegateID == old(pools[i].DelegateID)
-//@   modifies any(DelegatePool).Reward, maps
+//@   modifies any(DelegatePool).Reward, spUpdate.DelegateRewards[*]
 //@   loop 1 header "for i := int64(0); i < c; i++"
 //@   loop 1 invariant 0 <= i && i <= c && c == coins && c < len(pools) && share == 0
 //@   loop 1 invariant forall k in 0..i :: pools[k].Reward == old(pools[k].Reward) + 1
